@@ -1,4 +1,7 @@
 import WrglModel.Driver.Util
+import WrglModel.Driver.Tables
+import WrglModel.Model.BlockIndexCodec
+import WrglModel.Spec.TableInv
 import WrglModel.Model.Encoding
 import WrglModel.Model.Time
 import WrglModel.Gen.Facts
@@ -154,6 +157,41 @@ def handleC06 (op : String) (input impl : Json) : Except String Json := do
     let agree := if Facts.hdrBitsExact then sameRes impl mj
       else resClass impl == resClass mj
     return reply mj agree viol
+  | "blockindex" =>
+    -- the index IndexBlock builds, written, read back, written again, stored and fetched
+    if resClass impl == "panic" then return reply Json.null false ["no-panic"]
+    if resClass impl != "ok" then return reply Json.null false ["unexpected-error"]
+    let v := fldD impl "val" Json.null
+    let bs ← asBytes (fldD v "bytes" (Json.str ""))
+    let re ← asBytes (fldD v "reencoded" (Json.str ""))
+    let fs ← asBytes (fldD v "fromStore" (Json.str ""))
+    let keyIsHash := (fldD v "keyIsHash" (Json.bool false)).getBool?.toOption.getD false
+    let idx ← bidxOf (fldD v "idx" Json.null)
+    -- model: the codec of Model/BlockIndexCodec.lean on the same bytes
+    let m := decodeBIdx bs
+    let agree := match m with
+      | .ok (b, tail) => tail.isEmpty && b == idx && encodeBIdx b == bs
+      | _ => false
+    let nRows := ((fldD input "rows" (Json.arr #[])).getArr?.toOption.getD #[]).size
+    let viol :=
+      (if re == bs then [] else ["block-index-reencodes-to-the-stored-bytes"]) ++
+      (if fs == bs then [] else ["block-index-reads-back-from-the-store"]) ++
+      (if keyIsHash then [] else ["key-is-hash-of-content"]) ++
+      (if idx.rows.length == nRows && isPermOfRange idx.sortedOff nRows && nondecreasingAlong idx.sortedOff idx.rows then []
+       else ["block-index-sorted-by-key-hash"])
+    return reply (Json.mkObj [("rows", jNat idx.rows.length)]) agree viol
+  | "profile" =>
+    -- no Lean model of the profile (floating point statistics): re-encoding clauses only
+    if resClass impl == "panic" then return reply Json.null false ["no-panic"]
+    if resClass impl != "ok" then return reply Json.null false ["unexpected-error"]
+    let v := fldD impl "val" Json.null
+    let stored := (fldD v "stored" Json.null).compress
+    let viol :=
+      (if (fldD v "reencoded" Json.null).compress == stored then [] else ["profile-reencodes-to-the-stored-bytes"]) ++
+      (if (fldD v "reencoded2" Json.null).compress == stored then [] else ["profile-read-back-equals-written"]) ++
+      (if (fldD v "rowsCount" Json.null).compress == (fldD v "rows" Json.null).compress &&
+          (fldD v "columns" Json.null).compress == (fldD v "cols" Json.null).compress then [] else ["profile-describes-the-table"])
+    return reply Json.null true viol
   | "save" =>
     let kind ← strFld input "kind"
     let content ← asBytes (fldD input "content" (Json.str ""))
